@@ -139,6 +139,11 @@ def kernel_work(P, item):
                 P.inconclusive_(f"detrend_1d[n={n}] raised {e}")
             P.reached += 1
             return
+        if r.shape != (n,):
+            solve(P, f"detrend_1d[n={n}]: residual of the least-squares line (normal equations)", [], z3.BoolVal(True),
+                  lambda m: dict(kind="detrend", data=[float(i * i) for i in range(n)]))
+            P.reached += 1
+            return
         res = [Rr(T(r.get((i,)))) for i in range(n)]
         a, b = z3.Real("slope"), z3.Real("icpt")
         bad = [z3.BoolVal(r.shape != (n,))]
